@@ -12,7 +12,11 @@ without status stage, status OUT token without data packet, status ZLP never ACK
 non-ZLP status data, PING, stray IN/OUT tokens, IN tokens after the last packet of a data stage, OUT-data request, vendor/class/unknown requests,
 GET_DESCRIPTOR with wLength 0, bus reset in the middle of a transfer) followed by one complete transfer of a
 supported request (GET_DESCRIPTOR with many wLength choices, GET_STATUS, GET_CONFIGURATION, SET_CONFIGURATION,
-SET_ADDRESS, CLEAR_FEATURE(ENDPOINT_HALT)) done the way a real host does it, including: control data packet not
+SET_ADDRESS, CLEAR_FEATURE(ENDPOINT_HALT), and a vendor request 0x51 served by a small correct handler written for this
+check and added with `add_request_handler`, in all four combinations direction bit x (wLength == 0 / > 0), so that the
+control endpoint's stage selection is judged for each of them: data stage only for direction IN with wLength > 0, IN
+status stage with ZLP whenever there is no data stage or the data stage was OUT, the handler's action counted exactly
+once per completed no-data request) done the way a real host does it, including: control data packet not
 ACKed and fetched again, ACK of the last data packet lost (host goes straight to the status stage), status ZLP
 not ACKed and fetched again, host ending the data stage early, and 0-2 foreign transactions at every point
 between the packets of the transfer (bulk IN with / without ACK, bulk OUT, tokens to endpoints that do not
@@ -69,7 +73,8 @@ RULE = ("case = session of 10-18 episodes on one USBDevice with random descripto
         "transaction and >=1 multi-packet data stage or retry; distinct = hash of all wire-level steps")
 REQUIRED_BINS = [
     "xfer_get_descriptor", "xfer_get_status", "xfer_get_configuration", "xfer_set_configuration", "xfer_set_address",
-    "xfer_clear_halt", "multi_packet_data_stage", "early_status", "last_data_ack_lost_then_status",
+    "xfer_clear_halt", "xfer_vendor_in_data", "xfer_vendor_in_wlength0", "xfer_vendor_out_data", "xfer_vendor_out_wlength0",
+    "multi_packet_data_stage", "early_status", "last_data_ack_lost_then_status",
     "ctrl_data_unacked_then_retried", "status_zlp_unacked_then_retried",
     "junk_setup_only", "junk_double_setup", "junk_partial_data", "junk_data_no_status", "junk_status_token_only",
     "junk_status_zlp_unacked", "junk_wrong_direction", "junk_ping", "junk_stray_tokens", "junk_out_data_request",
@@ -84,7 +89,7 @@ REQUIRED_BINS = [
     "in_token_past_end_of_descriptor",
     "clean_history_transfer", "transfer_after_abandoned",
 ]
-REQUIRED_EVENTS = ["setups_judged", "ep0_in_tokens_judged", "data_packets_judged", "status_stages_judged",
+REQUIRED_EVENTS = ["vendor_actions_judged", "out_data_packets_judged", "setups_judged", "ep0_in_tokens_judged", "data_packets_judged", "status_stages_judged",
                    "transfers_judged", "transfers_completed_as_reference", "foreign_transactions",
                    "bulk_in_packets_seen", "device_acks_seen", "sessions"]
 ASSUMPTIONS = [
@@ -115,6 +120,55 @@ def build_device(descs, *, bulk_mps=8, fs60=False):
         def elaborate(self, platform):
             return Module()
 
+    from amaranth import Signal, Mux
+    from luna.gateware.usb.usb2.request import USBRequestHandler
+
+    class VendorHandler(USBRequestHandler):
+        """Harness-side request handler (luna's public extension point `add_request_handler`) that implements one
+        vendor request, bRequest 0x51, correctly for all four direction x wLength combinations and keeps no state
+        across SETUPs:  device-to-host, wLength > 0: data stage returns min(wLength, 4) bytes (wValue[7:0] + i), the
+        OUT status stage is ACKed;  host-to-device, wLength > 0: every OUT data packet is ACKed, status IN gets a
+        ZLP;  wLength == 0 (either direction bit): status IN gets a ZLP.  `action_count` counts host ACKs of a
+        status ZLP (the request's action).  It is the stage FSM of the real USBControlEndpoint that is judged."""
+        REQUEST = 0x51
+
+        def __init__(self):
+            super().__init__()
+            self.action_count = Signal(8)
+
+        def elaborate(self, platform):
+            m = Module()
+            i = self.interface
+            setup, tx = i.setup, i.tx
+            n, idx = Signal(3), Signal(3)
+            sending, zlp_sent = Signal(), Signal()
+            has_data = setup.length != 0
+            m.d.comb += n.eq(Mux(setup.length > 4, 4, setup.length[0:3]))
+            with m.If((setup.type == 2) & (setup.request == self.REQUEST)):
+                m.d.comb += i.claim.eq(1)
+                with m.If(i.data_requested & setup.is_in_request & has_data):
+                    m.d.usb += [sending.eq(1), idx.eq(0)]
+                with m.If(sending):
+                    m.d.comb += [tx.valid.eq(1), tx.payload.eq(setup.value[0:8] + idx), tx.first.eq(idx == 0),
+                                 tx.last.eq(idx == n - 1)]
+                    with m.If(tx.ready):
+                        m.d.usb += idx.eq(idx + 1)
+                        with m.If(idx == n - 1):
+                            m.d.usb += sending.eq(0)
+                with m.If(i.status_requested):
+                    with m.If(setup.is_in_request & has_data):
+                        m.d.comb += i.handshakes_out.ack.eq(1)
+                    with m.Else():
+                        m.d.comb += [tx.valid.eq(1), tx.last.eq(1)]
+                        m.d.usb += zlp_sent.eq(1)
+                with m.If(i.rx_ready_for_response):
+                    m.d.comb += i.handshakes_out.ack.eq(1)
+                with m.If(i.handshakes_in.ack & zlp_sent):
+                    m.d.usb += [self.action_count.eq(self.action_count + 1), zlp_sent.eq(0)]
+            with m.If(setup.received):
+                m.d.usb += [sending.eq(0), zlp_sent.eq(0)]
+            return m
+
     utmi = UTMIInterface()
     dev = USBDevice(bus=utmi)
     if fs60:
@@ -125,6 +179,8 @@ def build_device(descs, *, bulk_mps=8, fs60=False):
     for (t, i), raw in sorted(descs.items()):
         coll.add_descriptor(raw, index=i, descriptor_type=t)
     ctrl = dev.add_standard_control_endpoint(coll)
+    ctrl.vendor_handler = VendorHandler()
+    ctrl.add_request_handler(ctrl.vendor_handler)
     ep_in = USBStreamInEndpoint(endpoint_number=C.Session.BULK_IN_EP, max_packet_size=bulk_mps)
     ep_out = USBStreamOutEndpoint(endpoint_number=C.Session.BULK_OUT_EP, max_packet_size=bulk_mps)
     spy = Spy()
@@ -174,6 +230,8 @@ def run_session(rng, res, n_episodes, tier):
     acks_in_windows = rng.random() < 0.6
     ses = C.Session(b, host, rng, res, descs, utmi, foreign_ack_in_windows=acks_in_windows,
                     resp_window=120 if fs60 else C.RESP_WINDOW)
+    b.watch(ctrl.vendor_handler.action_count)
+    ses.vendor_action = lambda: b.get(ctrl.vendor_handler.action_count)
     p_junk = rng.choice([0.0, 0.3, 0.5, 0.7])
     p_inter = rng.choice([0.0, 0.3, 0.5, 0.7])
     d = {"gap_profile": gap_profile, "ready_profile": ready_profile, "timing": "fs60" if fs60 else "fs12", "p_junk": p_junk, "p_inter": p_inter, "foreign_acks_in_vulnerable_windows": acks_in_windows,
